@@ -23,7 +23,7 @@ use cfb::verif::{set_lock_observer, LockEvent, LockKind, LockPhase};
 use cfb::{CompoundFile, Version};
 use std::cell::RefCell;
 use std::collections::{BTreeMap, BTreeSet};
-use std::io::{Read, Seek, SeekFrom, Write};
+use std::io::{BufRead, Read, Seek, SeekFrom, Write};
 use std::sync::atomic::{AtomicBool, AtomicU64, AtomicUsize, Ordering};
 use std::sync::{Mutex, OnceLock};
 use std::time::{Duration, Instant};
@@ -275,6 +275,44 @@ fn run_discipline(ctx: &Ctx, rep: &mut Report) {
                 rep.count("m1.handle_scripts");
             }
         }
+        // two handles on one stream: the stream is shortened through one of them, then the
+        // other (stale) handle refills at or beyond the new end, writes and resizes
+        if let Some(p) = streams.first() {
+            if let (Ok(mut h1), Ok(mut h2)) = (cf.open_stream(p), cf.open_stream(p)) {
+                let r = crate::guard::catch(|| {
+                    let mut buf = [0u8; 300];
+                    let l = h1.len();
+                    let _ = h2.set_len(l / 3);
+                    let _ = h2.flush();
+                    let _ = h1.seek(SeekFrom::Start(l / 2));
+                    let _ = h1.read(&mut buf);
+                    let _ = h1.fill_buf().map(|b| b.len());
+                    let _ = h1.seek(SeekFrom::Start(0));
+                    let _ = h1.read(&mut buf);
+                    let _ = h2.set_len(0);
+                    let _ = h1.seek(SeekFrom::Start(10));
+                    let _ = h1.read(&mut buf);
+                    let mut v = Vec::new();
+                    let _ = h1.read_to_end(&mut v);
+                    let _ = h1.write(&[9u8; 40]);
+                    let _ = h1.flush();
+                    let _ = h1.set_len(l + 100);
+                    let _ = h2.seek(SeekFrom::End(0));
+                    let _ = h2.read(&mut buf);
+                });
+                rep.count("m1.two_handle_scripts");
+                if let Err(pinfo) = r {
+                    // the observer's own verdict, or a panic of the crate ("none panics")
+                    let sig = if pinfo.message.contains("certain self-deadlock") { format!("lock discipline | {}", crate::guard::strip_numbers(&pinfo.message)) } else { pinfo.signature() };
+                    rep.finding(sig, format!("two handles on one stream, one of them stale: panic at {}:{}: {}", pinfo.file, pinfo.line, pinfo.message), ctx.witness(0, vec![("monitor", J::s("M1 single-threaded drive, two handles on one stream"))]));
+                    std::mem::forget(h1);
+                    std::mem::forget(h2);
+                    std::mem::forget(cf);
+                    rep.evaluations += 1;
+                    continue;
+                }
+            }
+        }
         // the same handle operations on their *error* paths: every underlying call fails
         let mut poisoned = false;
         for (k, p) in streams.iter().cycle().take(10).enumerate() {
@@ -312,7 +350,8 @@ fn run_discipline(ctx: &Ctx, rep: &mut Report) {
                 std::mem::forget(s); // its Drop would write back into the failing store
                 rep.count("m1.error_path_scripts");
                 if let Err(pinfo) = r {
-                    rep.finding(format!("lock discipline | {}", crate::guard::strip_numbers(&pinfo.message)), format!("on an error path (underlying calls failing): {}", pinfo.message), ctx.witness(0, vec![("monitor", J::s("M1 lock-discipline, error paths"))]));
+                    let sig = if pinfo.message.contains("certain self-deadlock") { format!("lock discipline | {}", crate::guard::strip_numbers(&pinfo.message)) } else { pinfo.signature() };
+                    rep.finding(sig, format!("on an error path (underlying calls failing): panic at {}:{}: {}", pinfo.file, pinfo.line, pinfo.message), ctx.witness(0, vec![("monitor", J::s("M1 single-threaded drive, error paths"))]));
                     // the guard was held when the observer unwound: the lock is poisoned now
                     poisoned = true;
                     break;
@@ -502,7 +541,9 @@ fn run_threads(ctx: &Ctx, rep: &mut Report, forced: bool, round: u64) -> bool {
                     }
                     2 => stream.flush()?,
                     3 => {
-                        len_now += 1 + op % 5;
+                        // mostly small steps; twice per stress round one extension of several
+                        // MiB (a resize that is long enough for readers to run into it)
+                        len_now += if !forced && (op == 13 || op == 38) { 4_300_000 + (op * 1_000_003) % 5_000_000 } else { 1 + op % 5 };
                         stream.set_len(len_now)?;
                     }
                     _ => {
